@@ -549,6 +549,7 @@ func rulesC14(c *Ctx) {
 	ruleC14Empty(c)
 	ruleC14Direction(c, cts)
 	ruleEntityBucketDescent(c, "C14.ENTITYBUCKET")
+	ruleBucketMemoInvalidated(c, "C14.BUCKETMEMO")
 	ruleC14Wrap(c)
 }
 
